@@ -85,6 +85,7 @@ class Ctl:
         self.lost_jobs = []             # (step seq, failing job, [jobs whose outputs were destroyed])
         self.active_recoveries = 0
         self.fail_events = []           # (seq, job, phase, kind)
+        self.writable = True            # how SimTransferStep stages inputs (False: read-only copies, related to their source)
 
     def next_fault(self, phase, job):
         key = (phase, job)
@@ -240,7 +241,7 @@ class SimTransferStep(TransferStep):
         dst_path = os.path.join(job.input_directory, src.relpath)
         await core.CURRENT.io("transfer", job.name)
         await context.data_manager.transfer_data(src_location=src.location, src_path=src.path, dst_locations=dst_locations,
-                                                 dst_path=dst_path, writable=True)
+                                                 dst_path=dst_path, writable=ctl().writable)
         return dst_path
 
     async def _move(self, job, token):
@@ -272,12 +273,26 @@ class Builder:
         self.cfg = DeploymentConfig(name="simlocal", type="local", config={}, external=True, lazy=False, workdir=self.workdir)
         self.deploy = wf.create_step(DeployStep, name="/__deploy__/simlocal", deployment_config=self.cfg)
         self.static = []   # (step name, [input stream names], out kind) for the reference
+        self.cfg2 = self.deploy2 = None
 
-    def exec_step(self, name, inputs: dict, out_kind="file", width=0):
+    def second_site(self):
+        """A second deployment (own work directory): data moved to it is a replica of the copy on the first one."""
+        if self.cfg2 is None:
+            wd2 = os.path.join(self.sim.scratch, "wd-site-b")
+            os.makedirs(wd2, exist_ok=True)
+            self.cfg2 = DeploymentConfig(name="simlocal-b", type="local", config={}, external=True, lazy=False, workdir=wd2)
+            self.deploy2 = self.wf.create_step(DeployStep, name="/__deploy__/simlocal-b", deployment_config=self.cfg2)
+        return self.cfg2, self.deploy2
+
+    def exec_step(self, name, inputs: dict, out_kind="file", width=0, site_b=False):
         wf = self.wf
-        binding = BindingConfig(targets=[Target(deployment=self.cfg, workdir=self.workdir)])
+        cfg, deploy, workdir = self.cfg, self.deploy, self.workdir
+        if site_b:
+            cfg, deploy = self.second_site()
+            workdir = cfg.workdir
+        binding = BindingConfig(targets=[Target(deployment=cfg, workdir=workdir)])
         sched = wf.create_step(SimScheduleStep, name=posixpath.join(name, "__schedule__"), job_prefix=name,
-                               connector_ports={"simlocal": self.deploy.get_output_port()}, binding_config=binding)
+                               connector_ports={cfg.name: deploy.get_output_port()}, binding_config=binding)
         ex = wf.create_step(ExecuteStep, name=name, job_port=sched.get_output_port())
         ex.command = SimCommand(ex, out_kind=out_kind, width=width)
         for key, port in inputs.items():
